@@ -339,3 +339,61 @@ def space_leaf_ok(w, fn_short):
             return False
     _SPACE_LEAF[key] = True
     return True
+
+
+# ---------------------------------------------------------------------------------------------------------------------
+# who may filter the children: the dispatch rules feed every child kind the grammar allows to a loop; an iterator adaptor that drops
+# elements *before* the loop (seed C09/4B: `filter_map` removing the Space in front of a comment) is invisible to them.  Every
+# element-dropping adaptor applied to an iterator over syntax nodes in the printer is an instance; the confirmed ones are listed with
+# the reason why what they drop is not lost.
+# ---------------------------------------------------------------------------------------------------------------------
+DROPPING_ADAPTOR = re.compile(r'Iterator>?::(filter|filter_map|skip_while|take_while|step_by|map_while|skip|take)$')
+FILTER_ALLOWED = {
+    # (function, adaptor): (count, reason)
+    ('get_parenthesized_args_untyped', 'skip_while'): (1, 'children up to the opening parenthesis: the callee / trailing-block part is handled by the caller'),
+    ('get_parenthesized_args_untyped', 'take_while'): (1, 'children from the closing parenthesis on: trailing content blocks are converted by convert_additional_args'),
+    ('get_parenthesized_args', 'filter_map'): (1, 'typed view of the arguments, used for decisions (table layout, single-argument forms) - the emitting loops iterate the untyped children'),
+    ('convert_additional_args', 'skip_while'): (1, 'skips the parenthesised part, which convert_parenthesized_args has emitted'),
+    ('convert_additional_args', 'filter_map'): (1, 'after the closing parenthesis the grammar admits content blocks only (no trivia between trailing blocks)'),
+    ('convert_parenthesized_args', 'filter'): (1, 'counts the arguments (a decision, nothing is emitted from it)'),
+    ('convert_parenthesized_args', 'take'): (1, 'the arguments inside the parentheses (decision: is there exactly one and of which kind)'),
+    ('convert_parenthesized_args::{closure#0}', 'take_while'): (1, 'children before the closing parenthesis (the iterator the list stylist walks; trailing blocks follow separately)'),
+    ('convert_table', 'filter_map'): (2, 'named / positional arguments of a table the predicate found comment-free and spread-free (is_formatable_table, judged by C06.R2)'),
+    ('convert_table', 'take_while'): (1, 'children before the closing parenthesis'),
+    ('convert_table', 'filter'): (1, 'positional arguments (cells); named ones are emitted by the loop before'),
+    ('try_convert_dot_chain_plain', 'skip'): (1, 'length estimate of the chain (a decision; the emitting loop walks the whole chain)'),
+}
+
+
+def filter_obligations(w):
+    """[(ok, construct, key, why, loc)] for every element-dropping adaptor over syntax nodes in the printer"""
+    from mirfacts import callee_path
+    out = []
+    seen = {}
+    for b in w.fn_bodies(w.core):
+        if not (b.short.startswith('pretty::') or b.short.startswith('partial::')):
+            continue
+        for bi, t in b.calls():
+            p = callee_path(t) or ''
+            if not DROPPING_ADAPTOR.search(p) or not t['args'] or t['args'][0]['o'] not in ('copy', 'move'):
+                continue
+            ty = b.locals[t['args'][0]['p']['l']]['ty']['s']
+            if not ('SyntaxNode' in ty or 'typst_syntax::ast::' in ty or 'LinkedNode' in ty):
+                continue
+            fn = re.sub(r'^.*\{impl#\d+\}::', '', b.short).rsplit('::', 1)[-1] if '{closure' not in b.short else \
+                re.sub(r'^.*\{impl#\d+\}::', '', b.short).split('::', 0)[0]
+            fn = re.sub(r'^pretty::\w+::', '', fn)
+            ad = p.rsplit('::', 1)[-1]
+            seen.setdefault((fn, ad), []).append((b, t))
+    for (fn, ad), insts in sorted(seen.items()):
+        allowed = FILTER_ALLOWED.get((fn, ad))
+        for n, (b, t) in enumerate(insts):
+            cons = {'fn': b.short, 'adaptor': ad, 'line_hint': t['span']['line']}
+            if allowed and n < allowed[0]:
+                out.append((True, cons, 'filter|%s|%s' % (fn, ad), 'confirmed: ' + allowed[1], b.loc(t['span'])))
+            else:
+                out.append((False, cons, 'filter|%s|%s' % (fn, ad),
+                            '%s applies `%s` to an iterator over syntax nodes: the elements it removes never reach the loop that prints the children, so the '
+                            'per-kind dispatch rules cannot see them being dropped (a token, comment or space can disappear here); not one of the confirmed filters'
+                            % (b.short, ad), b.loc(t['span'])))
+    return out
